@@ -87,7 +87,7 @@ def gen_case(rng, idx):
 
 
 def generate(rng, tier):
-    n = dict(quick=2500, thorough=150000, search=40000)[tier]
+    n = dict(quick=2500, thorough=600000, search=40000)[tier]
     cases = [gen_case(rng.fork(), i) for i in range(n)]
     # boundary grid: exhaustive over 4^4 field combinations (all tiers), all pairs for ordering (thorough)
     grid = [(s, f, c, nd) for s in SECS for f in FRAC for c in CTR for nd in NODE]
